@@ -49,7 +49,9 @@ theorem scan_regions_lossless {V : Type} (nx ny : Nat) (conn8 : Bool) (close : V
     (∀ i, i < sc.regionDone → ∃ f, f < nx * ny ∧ rid f = i + 1 ∧ (∀ p, p < f → rid p ≠ i + 1) ∧
       sc.column.reverse[i]? = some (values f)) ∧
     (∀ i, i < sc.regionDone → ∀ X Y : Nat, X < nx → Y < ny →
-      inPolygon (sc.polys.getD i []) (X : Int) (Y : Int) = (rid (X + Y * nx) == i + 1)) := by
+      inPolygon (sc.polys.getD i []) (X : Int) (Y : Int) = (rid (X + Y * nx) == i + 1) ∧
+      ((sc.polys.getD i []).map (fun ring => crossings ring (X : Int) (Y : Int))).sum % 2 =
+        if rid (X + Y * nx) = i + 1 then 1 else 0) := by
   intro sc rid
   have hreq : ∀ ij, ij < nx * ny → scanRegs nx ny conn8 close values mask ij = rid ij :=
     fun ij hij => scanRegs_eq nx ny conn8 close values mask hij
@@ -100,5 +102,97 @@ theorem scan_regions_lossless {V : Type} (nx ny : Nat) (conn8 : Bool) (close : V
       have : (Y + 1) * nx ≤ ny * nx := Nat.mul_le_mul_right nx hY
       rw [Nat.add_mul, Nat.mul_comm ny nx] at this; omega
     rw [← hreq _ hp]; exact h6 i hi X Y hX hY
+
+theorem pix_lt {nx ny X Y : Nat} (hX : X < nx) (hY : Y < ny) : X + Y * nx < nx * ny := by
+  have : (Y + 1) * nx ≤ ny * nx := Nat.mul_le_mul_right nx hY
+  rw [Nat.add_mul, Nat.mul_comm ny nx] at this; omega
+
+/-- the cell-assignment clause of C15 for `scan` -/
+theorem scan_cells_lossless {V : Type} (nx ny : Nat) (conn8 : Bool) (close : V → V → Bool)
+    (values : Nat → V) (mask : Nat → Bool) (hnx : 0 < nx) (hrefl : ∀ a, close a a = true)
+    (hsymm : ∀ a b, close a b = true → close b a = true)
+    (htrans : ∀ a b c, close a b = true → close b c = true → close a c = true)
+    (sc : Scan V) (hsc : scan nx ny conn8 close values mask = sc) :
+    sc.ok = true ∧ sc.column.length = sc.polys.length ∧
+    ∀ X Y : Nat, X < nx → Y < ny →
+      (mask (X + Y * nx) = false →
+        ∀ k, k < sc.polys.length → inPolygon (sc.polys.getD k []) (X : Int) (Y : Int) = false) ∧
+      (mask (X + Y * nx) = true →
+        ∃ k, k < sc.polys.length ∧ k + 1 = regionId nx ny conn8 close values mask (X + Y * nx) ∧
+          (∀ k', k' < sc.polys.length →
+            (inPolygon (sc.polys.getD k' []) (X : Int) (Y : Int) = true ↔ k' = k)) ∧
+          ∃ v, sc.column.reverse[k]? = some v ∧ close v (values (X + Y * nx)) = true) := by
+  subst hsc
+  obtain ⟨h1, h2, h3, h4, h5, h6⟩ := scan_regions_lossless nx ny conn8 close values mask hnx hsymm htrans
+  have h2' := h2
+  refine ⟨h1, by rw [h2']; exact h3, ?_⟩
+  intro X Y hX hY
+  have hp := pix_lt hX hY
+  have sp := regionId_spec nx ny conn8 close values mask hnx hsymm htrans hp hp
+  constructor
+  · intro hm k hk
+    rw [(h6 k (by omega) X Y hX hY).1, sp.1 hm]
+    simp
+  · intro hm
+    have hpos := sp.2.1 hm
+    have hle := h4 _ hp
+    refine ⟨regionId nx ny conn8 close values mask (X + Y * nx) - 1, by omega, by omega, ?_, ?_⟩
+    · intro k' hk'
+      rw [(h6 k' (by omega) X Y hX hY).1, beq_iff_eq]
+      omega
+    · obtain ⟨f, hf, e1, _, e3⟩ := h5 (regionId nx ny conn8 close values mask (X + Y * nx) - 1) (by omega)
+      refine ⟨values f, e3, ?_⟩
+      have sf := regionId_spec nx ny conn8 close values mask hnx hsymm htrans hf hp
+      have hmf : mask f = true := by
+        cases hmm : mask f with
+        | true => rfl
+        | false => have := sf.1 hmm; omega
+      exact connP_close nx conn8 close values mask (nx * ny) hrefl hsymm htrans
+        ((sf.2.2 hmf hm).mp (by omega))
+
+/-- polygons and connected regions correspond one to one -/
+theorem scan_polygons_components {V : Type} (nx ny : Nat) (conn8 : Bool) (close : V → V → Bool)
+    (values : Nat → V) (mask : Nat → Bool) (hnx : 0 < nx)
+    (hsymm : ∀ a b, close a b = true → close b a = true)
+    (htrans : ∀ a b c, close a b = true → close b c = true → close a c = true)
+    (sc : Scan V) (hsc : scan nx ny conn8 close values mask = sc) :
+    (∀ k, k < sc.polys.length → ∃ X Y : Nat, X < nx ∧ Y < ny ∧ mask (X + Y * nx) = true ∧
+      inPolygon (sc.polys.getD k []) (X : Int) (Y : Int) = true) ∧
+    (∀ X Y X' Y' : Nat, X < nx → Y < ny → X' < nx → Y' < ny → mask (X + Y * nx) = true →
+      mask (X' + Y' * nx) = true →
+      ((∃ k, k < sc.polys.length ∧ inPolygon (sc.polys.getD k []) (X : Int) (Y : Int) = true ∧
+          inPolygon (sc.polys.getD k []) (X' : Int) (Y' : Int) = true) ↔
+        ConnP nx conn8 close values mask (nx * ny) (X + Y * nx) (X' + Y' * nx))) := by
+  subst hsc
+  obtain ⟨h1, h2, h3, h4, h5, h6⟩ := scan_regions_lossless nx ny conn8 close values mask hnx hsymm htrans
+  have h2' := h2
+  constructor
+  · intro k hk
+    obtain ⟨f, hf, e1, _, _⟩ := h5 k (by omega)
+    have hx : f % nx < nx := Nat.mod_lt f hnx
+    have hy : f / nx < ny := div_lt_ny hnx hf
+    have sf := regionId_spec nx ny conn8 close values mask hnx hsymm htrans hf hf
+    have hmf : mask f = true := by
+      cases hmm : mask f with
+      | true => rfl
+      | false => have := sf.1 hmm; omega
+    refine ⟨f % nx, f / nx, hx, hy, by rw [decode_ij]; exact hmf, ?_⟩
+    rw [(h6 k (by omega) _ _ hx hy).1, decode_ij, e1]; simp
+  · intro X Y X' Y' hX hY hX' hY' hm hm'
+    have hp := pix_lt hX hY
+    have hp' := pix_lt hX' hY'
+    have sp := regionId_spec nx ny conn8 close values mask hnx hsymm htrans hp hp'
+    rw [← sp.2.2 hm hm']
+    constructor
+    · rintro ⟨k, hk, a, b⟩
+      rw [(h6 k (by omega) X Y hX hY).1, beq_iff_eq] at a
+      rw [(h6 k (by omega) X' Y' hX' hY').1, beq_iff_eq] at b
+      omega
+    · intro e
+      have hpos := sp.2.1 hm
+      have hle := h4 _ hp
+      refine ⟨regionId nx ny conn8 close values mask (X + Y * nx) - 1, by omega, ?_, ?_⟩
+      · rw [(h6 _ (by omega) X Y hX hY).1, beq_iff_eq]; omega
+      · rw [(h6 _ (by omega) X' Y' hX' hY').1, beq_iff_eq]; omega
 
 end XrsVerif.Polygonize
